@@ -417,6 +417,111 @@ def state_obs(t):
     return d
 
 
+# ---------------------------------------------------------------------------
+# seeded operations that accept a pool: the result must not depend on the ORDER in which the pool runs the tasks.
+# Two deterministic in-line executors (no threads): tasks are queued on submit and all pending ones run, in FIFO
+# resp. LIFO order, as soon as any result / done() is asked for.
+class _LazyFuture:
+    def __init__(self, ex):
+        self._ex = ex
+        self._set = False
+        self._res = None
+        self._exc = None
+
+    def _finish(self, res=None, exc=None):
+        self._set, self._res, self._exc = True, res, exc
+
+    def result(self, timeout=None):
+        if not self._set:
+            self._ex.flush()
+        if self._exc is not None:
+            raise self._exc
+        return self._res
+
+    def done(self):
+        if not self._set:
+            self._ex.flush()
+        return True
+
+    def cancel(self):
+        return False
+
+
+class OrderedExecutor:
+    def __init__(self, lifo, workers=2):
+        self.lifo = lifo
+        self._max_workers = workers
+        self.pending = []
+        self.batches = []
+
+    def submit(self, fn, *args, **kwargs):
+        fut = _LazyFuture(self)
+        self.pending.append((fut, fn, args, kwargs))
+        return fut
+
+    def flush(self):
+        tasks, self.pending = self.pending, []
+        self.batches.append(len(tasks))
+        if self.lifo:
+            tasks.reverse()
+        for fut, fn, args, kwargs in tasks:
+            try:
+                fut._finish(res=fn(*args, **kwargs))
+            except BaseException as e:
+                fut._finish(exc=e)
+
+    def shutdown(self, *a, **k):
+        self.flush()
+
+
+POOL_APIS = {
+    "core.ContractionTree.parallel_temper": ["default"],
+    "pathfinders.path_simulated_annealing.parallel_temper_tree": ["default"],
+    "core.ContractionTree.subtree_reconfigure_forest": ["default", "select_max_bfs"],
+    "pathfinders.path_basic.RandomGreedyOptimizer": ["default"],
+}
+
+
+def pool_call(api, variant, net, seed, parallel):
+    t = base_tree(net)
+    inputs, output, size_dict = net["inputs"], net["output"], net["size_dict"]
+    if api == "core.ContractionTree.parallel_temper":
+        return tree_obs_full(t.parallel_temper(tsteps=3, numiter=3, num_trees=4, max_time=None, parallel=parallel, seed=seed))
+    if api == "pathfinders.path_simulated_annealing.parallel_temper_tree":
+        from cotengra.pathfinders.path_simulated_annealing import parallel_temper_tree
+        return tree_obs_full(parallel_temper_tree(t, tsteps=3, numiter=3, num_trees=4, max_time=None, parallel=parallel, seed=seed))
+    if api == "core.ContractionTree.subtree_reconfigure_forest":
+        kw = {"default": {}, "select_max_bfs": {"subtree_search": ("bfs",), "subtree_select": ("max", "min")}}[variant]
+        return tree_obs_full(t.subtree_reconfigure_forest(num_trees=4, num_restarts=2, subtree_size=4, subtree_maxiter=4,
+                                                          parallel=parallel, seed=seed, **kw))
+    if api == "pathfinders.path_basic.RandomGreedyOptimizer":
+        o = ctg.RandomGreedyOptimizer(max_repeats=6, seed=seed, parallel=parallel, accel=False)
+        return canon([o(inputs, output, size_dict), o.search(inputs, output, size_dict).get_path()])
+    raise KeyError("no pool runner for %s" % api)
+
+
+def run_pool(api, variant, net, seed):
+    inputs = [tuple(t) for t in net["inputs"]]
+    net = {"inputs": inputs, "output": tuple(net["output"]), "size_dict": dict(net["size_dict"])}
+    fifo, lifo = OrderedExecutor(False), OrderedExecutor(True)
+    r_fifo = pool_call(api, variant, net, seed, fifo)
+    r_lifo = pool_call(api, variant, net, seed, lifo)
+    r_fifo2 = pool_call(api, variant, net, seed, OrderedExecutor(False))
+    out = {"pool_used": bool(fifo.batches and max(fifo.batches) > 1)}
+    # the serial run: same result required where the operation does not document a dependence on the pool
+    # (RandomGreedyOptimizer splits its trials over the workers: only the two orders are compared there)
+    if api != "pathfinders.path_basic.RandomGreedyOptimizer":
+        r_serial = pool_call(api, variant, net, seed, False)
+    else:
+        r_serial = r_fifo
+    if r_fifo == r_lifo == r_fifo2 == r_serial:
+        out["result"] = r_fifo
+    else:
+        out.update({"POOL_ORDER_MATTERS": True, "fifo": r_fifo, "lifo": r_lifo, "fifo_again": r_fifo2,
+                    "parallel_False": r_serial})
+    return out
+
+
 def run_repeat(api, variant, net, seed, hist, single_only):
     inputs = [tuple(t) for t in net["inputs"]]
     net = {"inputs": inputs, "output": tuple(net["output"]), "size_dict": dict(net["size_dict"])}
@@ -497,7 +602,9 @@ def main():
         signal.alarm(int(mode.get("job_timeout", 40)))
         try:
             TRACE["on"] = True
-            if job.get("repeat"):
+            if job.get("pool"):
+                rec["result"] = run_pool(job["api"], job.get("variant", "default"), job["net"], job["seed"])
+            elif job.get("repeat"):
                 rec["result"] = run_repeat(job["api"], job.get("variant", "default"), job["net"], job["seed"],
                                            job["repeat"], bool(mode.get("single_only")))
             else:
